@@ -17,7 +17,9 @@ const (
 	sutKVCopy
 )
 
-func sutName(k int) string { return []string{"mem", "keyvalue+SimStore(sharing)", "keyvalue+SimStore(copying)"}[k] }
+func sutName(k int) string {
+	return []string{"mem", "keyvalue+SimStore(sharing)", "keyvalue+SimStore(copying)"}[k]
+}
 
 // newSUT builds the file system under test; store is non-nil for the keyvalue kinds.
 func newSUT(t *T, kind int) (hackpadfs.FS, *SimStore) {
@@ -63,6 +65,9 @@ func opSig(o Op, ref *snapshot) string {
 
 // pathClass classifies a path against the reference snapshot.
 func pathClass(p string, ref *snapshot) string {
+	if !hackpadfs.ValidPath(p) {
+		return "invalid"
+	}
 	if p == "." {
 		return "root"
 	}
@@ -226,8 +231,8 @@ const (
 	appnd  = hackpadfs.FlagAppend
 )
 
-func opWrite(p string) Op    { return Op{Kind: "WriteFullFile", P: p, Perm: 0644, Data: []byte("x")} }
-func opMkdir(p string) Op    { return Op{Kind: "Mkdir", P: p, Perm: 0755} }
+func opWrite(p string) Op     { return Op{Kind: "WriteFullFile", P: p, Perm: 0644, Data: []byte("x")} }
+func opMkdir(p string) Op     { return Op{Kind: "Mkdir", P: p, Perm: 0755} }
 func opRename(p, q string) Op { return Op{Kind: "Rename", P: p, Q: q} }
 
 func init() {
@@ -247,7 +252,7 @@ func init() {
 	Register(&Engine{
 		Prop: "C01", Name: "fsdiff", Run: runC01,
 		Trials: map[string]int{"quick": 3000, "thorough": 200000},
-		Rule: "seeded histories (1-24 steps) of the twelve namespace operations over the alphabet {a,b,c} (depth<=3, all OpenFile flag sets, perms incl. type/setuid bits), applied step by step to the SUT (mem.FS, keyvalue.FS over sharing/copying SimStore) and to os.FS in a fresh scratch directory; a trial is non-trivial when at least one mutation succeeded on the reference; distinct = distinct event-log hash (ops, outcomes)",
+		Rule:   "seeded histories (1-24 steps) of the twelve namespace operations over the alphabet {a,b,c} (depth<=3, all OpenFile flag sets, perms incl. type/setuid bits), applied step by step to the SUT (mem.FS, keyvalue.FS over sharing/copying SimStore) and to os.FS in a fresh scratch directory; a trial is non-trivial when at least one mutation succeeded on the reference; distinct = distinct event-log hash (ops, outcomes)",
 		Components: map[string][]string{
 			"real": {"mem.FS", "keyvalue.FS", "keyvalue/blob", "hackpadfs package helpers", "os.FS", "Go os package + Linux kernel (tmpfs)"},
 			"stub": {"SimStore (map-backed keyvalue.Store, for the keyvalue kinds)"},
